@@ -1814,7 +1814,7 @@ def install(ctx):
     M['<Option as Try>::branch'] = try_branch
     M['<Result as FromResidual>::from_residual'] = from_residual
     M['<Option as FromResidual>::from_residual'] = from_residual
-    for t in ['Option', 'String', 'Vec', 'HashMap', 'HashSet', '[;]', 'i64', 'bool', 'u8', 'usize', '()', 'Result', 'u64', 'i32', 'u32', 'Box']:
+    for t in ['Option', 'String', 'Vec', 'HashMap', 'HashSet', '[;]', 'i64', 'bool', 'u8', 'usize', '()', 'Result', 'u64', 'i32', 'u32', 'Box', 'Sender', 'UnboundedSender', 'Arc']:
         M['<%s as Clone>::clone' % t] = clone_model
     M['<_ as Default>::default'] = default_model
     M['<String as Deref>::deref'] = str_value
